@@ -94,7 +94,9 @@ func TestReplayBurstDropsChanges(t *testing.T) {
 	// (the harness reader stops once its 4096-message buffer is full), so TCP back-pressure
 	// reaches the stream handler and the per-client channel fills
 	pushed := 0
-	for pushed < 400000 && drops.Load() == 0 {
+	// (an active that answers the overflow by disconnecting the client — the repaired behaviour — has no
+	// stream client left after it: nothing further can be dropped from a connected stream, stop pushing)
+	for pushed < 400000 && drops.Load() == 0 && (pushed < 1000 || p.act.VerifSSEClientCount() > 0) {
 		w.ver["s0"]++
 		v := detState("s0", w.ver["s0"])
 		w.tbl["s0"] = v
